@@ -193,6 +193,10 @@ def _heap_event(R, rec, w, pend, log):
         if op in ("floordiv", "mod") and yv == 0:
             rid = 0                                 # outside the statement: any outcome, nothing is kept
         ip = R.random() < 0.15
+        if ip and op not in L.IBINOPS and not (op in ("floordiv", "mod") and yv == 0):
+            op = R.choice(sorted(L.IBINOPS))         # `x op= y` exists for the arithmetic / bitwise operators and >>
+            if op in ("floordiv", "mod") and yv == 0:
+                rid = 0
         rec.call(op, [rec.obj_arg(a), y], rid=rid, ip=ip)
         log.append((op, a, y if y["k"] != "obj" else y["id"]))
     elif c < 0.36:                                  # comparison with an int / a literal of the same value
@@ -361,9 +365,9 @@ def run(res, tier):
 
         # 3a. several live objects: results of earlier calls are modified in place, operands re-evaluated
         htraces = _gen_heap_traces(3 if quick else 40, 40 if quick else 50)
-        k = next(i for i, e in enumerate(htraces[5]["ev"]) if e.get("rid") and e["op"] in CMP_OPS)
-        res.sample({"kind": "impl trace event (heap)", **{f: htraces[5]["ev"][k][f] for f in ("op", "args", "out", "rid")},
-                    "objects_after": [L.show(x) for x in htraces[5]["ev"][k]["heap"]]})
+        e0 = next((e for t in htraces[5:] for e in t["ev"] if e.get("rid") and e["op"] in CMP_OPS), htraces[0]["ev"][0])
+        res.sample({"kind": "impl trace event (heap)", **{f: e0.get(f) for f in ("op", "args", "out", "rid")},
+                    "objects_after": [L.show(x) for x in e0["heap"]]})
         hfound = L.validate(res, htraces, pool, sd, label="heap-trace", max_per_trace=2,
                             need_actions=("BinEv", "UnaryEv", "ReadEv", "HelperEv", "NewEv", "AssignEv", "SetEv"))
         hbad = {f[0] for f in hfound}
@@ -380,14 +384,15 @@ def run(res, tier):
                 hops[kk] = hops.get(kk, 0) + 1
                 res.distinct(("heap", e["op"], e["out"]["k"], bool(e.get("rid")), len(e["heap"]), e["heap"][0]["w"],
                               tuple(a.get("k") if isinstance(a, dict) else "i" for a in e["args"])))
-        for op in L.BITS_RESULT - {"reduce_and", "reduce_or", "reduce_xor"}:
+        rejected_ops = {f[3]["op"] for f in hfound}      # a rejected operator is a finding, not a vacuity problem
+        for op in L.BITS_RESULT - {"reduce_and", "reduce_or", "reduce_xor"} - rejected_ops:
             if not hops.get(op + ":ok:kept"):
                 raise common.MachineryError("no result of %s was kept as a live object in the heap traces" % op)
-        for op in ("assign", "nbassign", "flip", "setbit", "setslice"):
+        for op in {"assign", "nbassign", "flip", "setbit", "setslice"} - rejected_ops:
             if not hops.get(op + ":unit:tgt"):
                 raise common.MachineryError("mutator %s never applied in the heap traces" % op)
         nmut = sum(1 for t in htraces for e in t["ev"] if e.get("tgt", 1) != 1 and e["out"]["k"] == "unit")
-        if nmut < 50:
+        if nmut < 50 and not hfound:
             raise common.MachineryError("only %d in-place modifications of RESULT objects in the heap traces" % nmut)
         res.note("heap_trace_calls", hops)
         res.note("heap_trace_inplace_modifications_of_results", nmut)
